@@ -546,6 +546,17 @@ func (c wcase) monitor(mon *lib.Monitor, out wout) {
 	if outside != "" {
 		mon.Violate(site+"/rejects/read-only-path-accepted", "update mask path "+outside+" is outside the writable fields "+W.Enc()+" but the write was accepted", c.in(), "InvalidArgument", "OK")
 	}
+	if !c.R.Nil {
+		// the reset mask is a mask too: one that names an unknown path (also below a valid path of the
+		// same mask) must not be accepted, whatever the update mask is (the code answers Internal: the
+		// reset mask is the server's own; any rejection counts)
+		for _, r := range c.R.Paths {
+			if !mt.Classify(md, r).Valid {
+				mon.Violate(site+"/rejects/unknown-reset-path-accepted", "reset mask names unknown path "+r+" but the write was accepted", c.in(), "rejected", "OK")
+				break
+			}
+		}
+	}
 	if !c.M.Nil && len(c.M.Paths) == 0 {
 		if !proto.Equal(out.After, out.Before) {
 			mon.Violate(site+"/empty-mask/changed", "an empty non-nil update mask changed the message", c.in(), mt.CanonMsg(out.Before), mt.CanonMsg(out.After))
